@@ -48,7 +48,7 @@ def run_ground(rep, tier):
     for q in ("container_take", "container_untake", "grad_container_take", "sequence_extend_right", "grad_sequence_extend_right", "sequence_extend_left",
               "grad_sequence_extend_left", "make_sequence", "fwd_grad_make_sequence", "_make_dict", "ContainerVSpace", "SequenceVSpace", "DictVSpace",
               "SequenceBox", "DictBox"):
-        rep.function(f"autograd.builtins.{q}", getattr(B, q))
+        rep.function(f"autograd.builtins.{q}", getattr(B, q, None))
     N = 4 if tier == "quick" else 5
     rep.bound(f"{FN}: sequence lengths 0..{N}, every int index incl. negative, slices from start/stop/step in {{None,-3..3}}, every argnum, "
               "dict key orders - enumerated exhaustively; leaves opaque")
